@@ -149,7 +149,11 @@ func runC07(r *Run) {
 					sr := newSaveRestore(p, fn.Parent(), fv)
 					eachInstr(fn.Parent(), func(bb *ssa.BasicBlock, i int, in ssa.Instruction) {
 						if d, isD := in.(*ssa.Defer); isD {
-							if mc, isMC := d.Call.Value.(*ssa.MakeClosure); isMC && mc.Fn == ssa.Value(fn) && sr.deferRestores(d) {
+							callee := d.Call.Value
+							if mc, isMC := callee.(*ssa.MakeClosure); isMC {
+								callee = mc.Fn
+							}
+							if callee == ssa.Value(fn) && sr.deferRestores(d) {
 								ok = true
 							}
 						}
